@@ -70,7 +70,18 @@ class World(object):
         name = op["op"]
         self.steps += 1
         try:
+            watch = []
+            if op.get("obs") and self.mode == "C06":
+                # forced reads (which may fill memos inside the index) right before and right after the operation
+                for key in ("i", "j"):
+                    if isinstance(op.get(key), int) and op[key] < len(self.objs) and self.objs[op[key]].ix.ndim <= 2:
+                        watch.append(self.objs[op[key]])
+                for o in watch:
+                    self.observe_obj(o)
+                self.flags.add("forced reads around an operation")
             getattr(self, "op_" + name)(op)
+            for o in watch:
+                self.observe_obj(o)
         except _Abort:
             # the library raised inside an operation while deciding C07 / C15:
             # that is C06's business; this history ends here
@@ -162,6 +173,13 @@ class World(object):
         np = _np()
         o = self.objs[op["i"]]
         mask = np.array(op["mask"], dtype=bool)
+        if op.get("reuse"):
+            # one long-lived mask buffer per length, refilled in place between calls
+            bufs = self.__dict__.setdefault("maskbufs", {})
+            buf = bufs.setdefault(len(mask), np.zeros(len(mask), dtype=bool))
+            buf[...] = mask
+            mask = buf
+            self.flags.add("filtered with a refilled mask buffer")
         msnap = mask.tobytes()
         snap = snapshot_index(o.ix)
         with self.lib("filtered"):
@@ -350,8 +368,10 @@ class World(object):
         self.refresh(o)
 
     def op_observe(self, op):
+        self.observe_obj(self.objs[op["i"]])
+
+    def observe_obj(self, o):
         np = _np()
-        o = self.objs[op["i"]]
         ix, m = o.ix, o.model
         snap = snapshot_index(ix)
         cols = [()] if m.ndim == 1 else [(c,) for c in range(m.shape[1])]
@@ -830,7 +850,7 @@ def make_machine(mode, rec, tier, guard=None):
             o = self.world.objs[i]
             vals = sorted(set(o.model.reshape(-1).tolist()) | {o.ix.common, 9, -7})
             v = data.draw(st.one_of(st.none(), st.sampled_from(vals)))
-            self.do({"op": "shift", "i": i, "v": v})
+            self.do({"op": "shift", "i": i, "v": v, "obs": data.draw(st.booleans(), label="observe around")})
 
         @alive
         @rule(data=st.data())
@@ -842,10 +862,11 @@ def make_machine(mode, rec, tier, guard=None):
             js = [j for j, p in enumerate(self.world.objs)
                   if j != i and p.ix.shape[1:] == o.ix.shape[1:] and p.ix.shape[0] <= 6]
             if js and data.draw(st.booleans()):
-                self.do({"op": "append", "i": i, "j": data.draw(st.sampled_from(js))})
+                self.do({"op": "append", "i": i, "j": data.draw(st.sampled_from(js)),
+                         "obs": data.draw(st.booleans(), label="observe around")})
                 return
             op = self.draw_new(data, tail=o.ix.shape[1:], rows=data.draw(st.integers(0, 5)))
-            op.update({"op": "append", "i": i})
+            op.update({"op": "append", "i": i, "obs": data.draw(st.booleans(), label="observe around")})
             self.do(op)
 
         @alive
@@ -863,7 +884,7 @@ def make_machine(mode, rec, tier, guard=None):
             for cell in cells:
                 v = data.draw(st.sampled_from(vals))
                 entries.setdefault((v,) + tuple(cell[1:]), []).append(cell[0])
-            self.do({"op": "update", "i": i,
+            self.do({"op": "update", "i": i, "obs": data.draw(st.booleans(), label="observe around"),
                      "entries": [[list(k), sorted(r)] for k, r in sorted(entries.items())]})
 
         @alive
@@ -874,7 +895,11 @@ def make_machine(mode, rec, tier, guard=None):
                 return
             n = self.world.objs[i].model.shape[0]
             mask = data.draw(st.lists(st.booleans(), min_size=n, max_size=n))
-            self.do({"op": "filtered", "i": i, "mask": mask})
+            prev = getattr(self, "last_mask", None)
+            if prev is not None and len(prev) == n and data.draw(st.booleans(), label="permute previous mask"):
+                mask = data.draw(st.permutations(prev))  # same length and popcount as the previous call's mask
+            self.last_mask = list(mask)
+            self.do({"op": "filtered", "i": i, "mask": list(mask), "reuse": data.draw(st.booleans(), label="reuse buffer")})
 
         @alive
         @rule(data=st.data())
@@ -993,11 +1018,18 @@ def make_machine(mode, rec, tier, guard=None):
                 vals = sorted(set(m.reshape(-1).tolist()) | {9})
                 keys = data.draw(st.lists(st.tuples(st.sampled_from(vals), st.sampled_from(cols)), unique=True,
                                           max_size=5))
+                whole = data.draw(st.booleans(), label="entries vanish entirely")
                 for v, col in keys:
-                    r = data.draw(st.one_of(st.none(), sorted_rowids(n, 8), sorted_rowids(n, 8)))
+                    colarr = m if m.ndim == 1 else m[:, col[0]]
+                    if whole and v != o.ix.common:
+                        # every touched entry disappears completely: all its rows (difference) / none (intersection)
+                        rows = [r for r in range(n) if (colarr[r] == v) == (kind == "difference")]
+                        r = rows if kind == "difference" else rows[:3]
+                    else:
+                        r = data.draw(st.one_of(st.none(), sorted_rowids(n, 8), sorted_rowids(n, 8)))
                     entries.append([[v] + list(col), r])
             self.do({"op": "setop", "kind": kind, "i": i, "entries": entries,
-                     "as_index": data.draw(st.booleans())})
+                     "as_index": data.draw(st.booleans()), "obs": data.draw(st.booleans(), label="observe around")})
 
         @alive
         @rule(data=st.data())
